@@ -28,7 +28,8 @@ Verif.Model.WmptOps; `abs` = the spec tree of an in-memory node):
   C09_through_storage   the same for histories that interleave Update / Delete / Root() with Commit at ANY collapse level
                    (subtrees collapsed to references are resolved from storage on demand — the code path of fix cd97817):
                    at every point `Weight()` = sum of the live weights of the spec trie of the history, `Root()` = its hash, and
-                   `GetBlockProof(b)` names, for every block, the key whose cumulative-weight interval contains b
+                   `GetBlockProof(b)` names, for every block, the key whose cumulative-weight interval contains b;
+  C09_root_through_storage: and `Root()` = hash of the independent canonical construction from the live set
 
 See notes/C09.md for what ties these to the implementation-shaped model and what is checked by correspondence only.
 -/
@@ -37,6 +38,7 @@ import Verif.Lemmas.WmptRun
 import Verif.Lemmas.WmptCanon
 import Verif.Lemmas.WmptModelRun
 import Verif.Lemmas.WmptHistoryInv
+import Verif.Lemmas.WmptHistorySpec
 namespace Verif.Props.C09
 open Verif.Wmpt
 
@@ -189,6 +191,20 @@ theorem C09_through_storage (H : Bytes → Bytes) (hlen : ∀ x, (H x).length = 
         (by decide) (by decide) (hok ops [] (by simp)) hb1 hb
     rw [owner_eq_ownerSpec _ b hb1 hb] at ho
     exact ⟨k, v, key, _, ho, hk, hbp⟩
+
+/-- …and the root hash the implementation-shaped trie shows after such a history is the hash of the independent canonical
+    construction from the live (key, value, weight) set — whatever the history, the commits and the collapse levels -/
+theorem C09_root_through_storage (H : Bytes → Bytes) (hlen : ∀ x, (H x).length = 32) (ops : List HOp)
+    (hall : ∀ op ∈ ops, op.plain ∧ op.wf)
+    (hok : ∀ p q, ops = p ++ q → RepOps.PTOK (specRun p))
+    (hinj : ∀ p lvl q, ops = p ++ .commit lvl :: q → HashInj H (fun x => PT.Sub x (specRun p))) :
+    (rootHash H (hrun H ops).t).2 = (canonOf 64 (specRun ops).entriesN).hash H ∧
+    (∀ k v w, (k, v, w) ∈ (specRun ops).entries ↔
+        ∃ key : List Nib, key.length = 64 ∧ k = key.map nb ∧ mapRun (HOp.proj ops) key = some (v, w)) := by
+  obtain ⟨_, hr, _⟩ := C09_through_storage H hlen ops hall hok hinj
+  have hok64 := proj_opsOK ops hall
+  rw [hr, specRun_eq_ptRun]
+  exact ⟨(root_canon H 64 _ hok64).2, (history_content 64 _ hok64).1⟩
 
 /-- non-vacuity of the history theorems: delete-then-reinsert and a different insertion order give the same trie -/
 example :
